@@ -193,8 +193,11 @@ class C04(Prop):
             "every exit point of the client (incl. reading a request and ending silently) x exit result, random markings, plus random "
             "runs of 1-3 batches with servers that fail to start; the client's exit point is forced through the 'Sending request' log hook. "
             "c04.run: the real Run() with flags, config/suite files, --known-failing/--known-flaky patterns and this test binary re-executed "
-            "as client and server OS processes (1-4 server instances, servers failing to start, client exit status 0/1); compared: "
-            "Run's ok, exit status, numbers and names. "
+            "as client and server OS processes (1-4 server instances, servers failing to start, client exit status 0/1); half of the runs "
+            "without Verbose (map order of the instances); plus, always WITHOUT Verbose, a client that exits with status 1 exactly between "
+            "two batches (equal-sized all-pass batches, servers slow to stop so that the runner has seen the exit): the batches never "
+            "started have no outcome and must be counted as could-not-run - there the sum of the four printed counts stands for "
+            "'Total cases' (= number of selected cases in the model); compared: Run's ok, exit status, numbers and names. "
             "c04.peer: the real Run() in CLIENT mode - run()'s own in-process reference server / gRPC reference server wiring, real pipes "
             "and stderr reader - with this test binary re-executed as the client under test: it reports the scripted reply and puts a real "
             "HTTP/1.1 request on the wire that is as the case demands or wrong in a way only the server sees (codec, second request, "
@@ -267,6 +270,13 @@ class C04(Prop):
             yield flow_case(rng, "c04.flow")
         for _ in range(80 if tier == "quick" else 600):
             yield flow_case(rng, "c04.run", nb=rng.randint(1, 4), allow_exit=False)
+        # a client that ends early (status 1) exactly between two batches, run WITHOUT Verbose: the batches never
+        # started have no outcome at all and must still be counted ("Another N could not be run")
+        for i in range(6 if tier == "quick" else 40):
+            nb, n = rng.randint(2, 4), rng.randint(1, 3)
+            j = rng.randint(1, nb - 1)
+            batches = [[1, [["B%d/%s" % (b, x), 0] for x in "abc"[:n]]] for b in range(nb)]
+            yield ["c04.run", [], [], batches, n * j, 1]
         # client mode against the real in-process reference servers: every run has, for each protocol,
         # a matching result whose request only the server can fault (each defect), and the control
         for shape in ("B0", "B1"):
